@@ -16,9 +16,11 @@ one entry per occurrence, tagged with the path of call ids that leads to it).
   fileTypeName  the type name of a parameter of scalar file kind ("file types may change their names")
   outName       the output file name of a stage output, and of a non-file pipeline output
   help          parameter help strings
-  structDef     the DEFINITION of a struct type used by a reachable parameter: only the
-                struct's name is compared (not documented as intended — reported by the
-                harness as a finding when a changed definition is accepted)
+Since the repair of F20 the DEFINITIONS of the struct types used by reachable
+parameters are part of the compared meaning (`Meaning.compared.2`, the unfolded
+type trees `typesSem`): `Ast.EquivalentCall` runs a second pass (`structComparer`)
+over the same call tree which compares them member by member.  Whether that
+pass exists is the regenerated fact `Gen.c15StructsCompared`.
 Not part of the meaning at all (purely textual): comments, whitespace, order of
 declarations / parameters / bindings / calls / map keys, include structure,
 callables and types not reachable from the top-level call.
@@ -62,7 +64,6 @@ inductive Ignored
   | fileTypeName (mode : Bool) (param tname : Key)      -- mode: false = in, true = out
   | outName (param name : Key)
   | help (l : List (Key × Key))
-  | structDef (name : Key) (fields : List (Key × Param))
   deriving DecidableEq, Repr
 
 def Ignored.kind : Ignored → String
@@ -75,25 +76,15 @@ def Ignored.kind : Ignored → String
   | .fileTypeName _ _ _ => "fileTypeName"
   | .outName _ _ => "outName"
   | .help _ => "help"
-  | .structDef _ _ => "structDef"
 
 abbrev Path := List Key
 
-/-- struct definitions reachable from a type name (fuel = number of struct types) -/
-def structDefs (structs : List (Key × List (Key × Param))) : Nat → Key → List Ignored
-  | 0, _ => []
-  | n + 1, t =>
-    match lookupL t structs with
-    | none => []
-    | some fs => .structDef t (sortK fs) :: (sortK fs).flatMap fun f => structDefs structs n f.2.tname
-
 /-- ignored aspects of a parameter list (`isOut`, `isStage` select the out-name rule) -/
-def paramsIgnored (structs : List (Key × List (Key × Param))) (isOut isStage : Bool)
+def paramsIgnored (_structs : List (Key × List (Key × Param))) (isOut isStage : Bool)
     (l : List (Key × Param)) : List Ignored :=
   (sortK l).flatMap fun p =>
     (if p.2.fileKind == 2 then [Ignored.fileTypeName isOut p.1 p.2.tname] else []) ++
-    (if isOut && (isStage || !(p.2.fileKind == 2 || p.2.fileKind == 3)) then [Ignored.outName p.1 p.2.outName] else []) ++
-    structDefs structs structs.length p.2.tname
+    (if isOut && (isStage || !(p.2.fileKind == 2 || p.2.fileKind == 3)) then [Ignored.outName p.1 p.2.outName] else [])
 
 def here (path : Path) (l : List Ignored) : List (Path × Ignored) := l.map fun i => (path, i)
 
@@ -115,14 +106,100 @@ def ignoredCall (p : FullProg) : Nat → Path → Call → List (Path × Ignored
           paramsIgnored p.structs false false i ++ paramsIgnored p.structs true false o) ++
         (sortK (keyed cs)).flatMap fun q => ignoredCall p n at_ q.2
 
+/-! ## struct type definitions (the second pass of `Ast.EquivalentCall`: `structComparer`) -/
+
+abbrev Structs := List (Key × List (Key × Param))
+
+/-- `structComparer.typeName` / `.member`: neither name is a struct, or both are
+and the structs have the same member names, the members agree like parameters
+(`inParamEq`) and have equivalent types.  `fuel` bounds the nesting (compile
+rejects a struct that contains itself; members refer to earlier types). -/
+def structTreeEq (SA SB : Structs) : Nat → Key → Key → Bool
+  | 0, _, _ => true
+  | n + 1, t, u =>
+    match lookupL t SA, lookupL u SB with
+    | none, none => true
+    | some fa, some fb =>
+        matchAll (fun x y => inParamEq x y && structTreeEq SA SB n x.tname y.tname) fa fb
+    | _, _ => false
+
+/-- `structComparer.inParams` / `.outParams` loop body -/
+def tyEq (SA SB : Structs) (fs : Nat) (x y : Param) : Bool := structTreeEq SA SB fs x.tname y.tname
+
+def typesCallable (SA SB : Structs) (fs : Nat) (rec : Call → Call → Bool) : Callable → Callable → Bool
+  | .stage _ i o, .stage _ i' o' => matchAll (tyEq SA SB fs) i i' && matchAll (tyEq SA SB fs) o o'
+  | .pipeline i o cs _, .pipeline i' o' cs' _ =>
+      matchAll (tyEq SA SB fs) i i' && matchAll (tyEq SA SB fs) o o' &&
+      matchAll rec (keyed cs) (keyed cs')
+  | _, _ => false
+
+/-- `structComparer.call` -/
+def typesCall (SA SB : Structs) (fs : Nat) : Nat → Tab → Tab → Call → Call → Bool
+  | 0, _, _, _, _ => true
+  | n + 1, T, U, c, d =>
+    match lookupL c.decId T, lookupL d.decId U with
+    | none, none => true
+    | some x, some y => typesCallable SA SB fs (typesCall SA SB fs n T U) x y
+    | _, _ => false
+
+/-- the unfolded definition of a type: not a struct, or the struct's members
+(sorted by name) with what is compared of each and its own unfolded type -/
+inductive TyTree
+  | cut
+  | leaf
+  | node (fields : List (Key × (SemParam × TyTree)))
+
+def tyTree (S : Structs) : Nat → Key → TyTree
+  | 0, _ => .cut
+  | n + 1, t =>
+    match lookupL t S with
+    | none => .leaf
+    | some fs => .node (sortK (fs.map fun f => (f.1, (semIn f.2, tyTree S n f.2.tname))))
+
+/-- the struct definitions under a call: per callable the unfolded types of its
+parameters, per pipeline those of its calls -/
+inductive TSem
+  | cut
+  | missing
+  | stage (ins outs : List (Key × TyTree))
+  | pipeline (ins outs : List (Key × TyTree)) (calls : List (Key × TSem))
+
+def typesSemCallable (S : Structs) (fs : Nat) (rec : Call → TSem) : Callable → TSem
+  | .stage _ i o =>
+      .stage (sortK (i.map fun p => (p.1, tyTree S fs p.2.tname))) (sortK (o.map fun p => (p.1, tyTree S fs p.2.tname)))
+  | .pipeline i o cs _ =>
+      .pipeline (sortK (i.map fun p => (p.1, tyTree S fs p.2.tname))) (sortK (o.map fun p => (p.1, tyTree S fs p.2.tname)))
+        (sortK ((keyed cs).map fun p => (p.1, rec p.2)))
+
+def typesSem (S : Structs) (fs : Nat) : Nat → Tab → Call → TSem
+  | 0, _, _ => .cut
+  | n + 1, T, c =>
+    match lookupL c.decId T with
+    | none => .missing
+    | some x => typesSemCallable S fs (typesSem S fs n T) x
+
+/-- struct tables as Go holds them: member names of a struct are distinct -/
+def structsWf (S : Structs) : Bool := S.all (fun s => nodupKeys s.2)
+
+def sfuel (a b : FullProg) : Nat := a.structs.length + b.structs.length + 1
+
+/-- `Ast.EquivalentCall`: the call comparison and, when `structsCompared` (the
+regenerated fact: the second pass exists), the struct definitions. -/
+def equivalentCallFull (selfCompare structsCompared : Bool) (a b : FullProg) : Bool :=
+  equivalentCall selfCompare a.core b.core &&
+  (!structsCompared ||
+    typesCall a.structs b.structs (sfuel a b) (Prog.fuel a.core b.core) a.core.tab b.core.tab a.core.call b.core.call)
+
 structure Meaning where
-  /-- what `EquivalentCall` compares: `equivalentCall a b ↔ compared a = compared b` -/
-  compared : Sem
+  /-- what `EquivalentCall` compares: `equivalentCallFull a b ↔ compared a = compared b`:
+  the unfolded call tree and the unfolded struct definitions of its parameters -/
+  compared : Sem × TSem
   /-- what it deliberately (or not) does not look at -/
   ignored : List (Path × Ignored)
 
-def meaning (n : Nat) (p : FullProg) : Meaning :=
-  { compared := semCall n p.core.tab p.core.call, ignored := ignoredCall p n [] p.core.call }
+def meaning (n fs : Nat) (p : FullProg) : Meaning :=
+  { compared := (semCall n p.core.tab p.core.call, typesSem p.structs fs n p.core.tab p.core.call),
+    ignored := ignoredCall p n [] p.core.call }
 
 /-- the kinds of ignored aspects in which two programs differ (for the driver) -/
 def ignoredDiffKinds (a b : List (Path × Ignored)) : List String :=
